@@ -109,7 +109,7 @@ def kinds():
         def __call__(self, target, creds, enforcer, current_rule=None):
             Counting.calls += 1
             return self.match in creds.get('roles', [])
-    _checks.registered_checks['pvcount'] = Counting
+    env.register_kind('pvcount', Counting)
     _KINDS.extend([Odd, Counting])
     return _KINDS
 
@@ -132,7 +132,7 @@ class World:
             self.enf.register_default(policy.RuleDefault(name, self.base[name], scope_types=st))
 
     def close(self):
-        self._checks.registered_checks.pop('pvcount', None)
+        env.unregister_kind('pvcount')
         del _KINDS[:]
 
     def install(self, extra):
@@ -187,7 +187,8 @@ def gen_case(rnd):
         rule = 'gen-as-object'
         byobj = None
     exc_args = rnd.choice([[], [1, 'two'], ['only'], [None]])
-    exc_kwargs = rnd.choice([{}, {'kw': 3}, {'a': None, 'b': [1]}])
+    exc_kwargs = rnd.choice([{}, {'kw': 3}, {'a': None, 'b': [1]}, {'name': 'n'}, {'message': 'm', 'code': 403}, {'reason': 'r', 'outcome': 0},
+                             {'policy': 'p', 'context': None}, {'check': 1, 'key': 'k', 'value': 'v'}, {'msg': 'x', 'error': 'e', 'cls': 1}])
     return dict(gen_rule=gen_rule, rule=rule, byobj=byobj, creds=creds, target=target, exc_args=exc_args,
                 exc_kwargs=exc_kwargs, debug=rnd.random() < 0.5, enforce_scope=rnd.random() < 0.8,
                 empty_rules=rnd.random() < 0.08)
